@@ -237,6 +237,11 @@ func (x *Exec) doUnOp(st *State, u *ssa.UnOp) Value {
 		if g, ok := u.X.(*ssa.Global); ok && len(res.L) == 1 && x.ck.nonnil[g.Pkg.Pkg.Path()+"."+g.Name()] {
 			st.assume(mkNot(mkEq(res.L[0], tZero)))
 		}
+		if g, ok := u.X.(*ssa.Global); ok && len(res.L) == 1 {
+			if c := x.ck.constGlobal(g); c != nil {
+				st.assume(mkEq(res.L[0], x.constValue(c).one()))
+			}
+		}
 		return res
 	case token.NOT:
 		return scalar(u.Type(), mkNot(v.one()))
@@ -450,6 +455,13 @@ func (x *Exec) doBinOp(st *State, b *ssa.BinOp) Value {
 			}
 		}
 		res := x.rangedUF(st, t, "bitor", a, c)
+		// constant | x where x lies below the constant's lowest set bit: the bits do not overlap, so it is a sum
+		for _, pr := range [][2]Term{{a, c}, {c, a}} {
+			if mv, ok := litVal(pr[1].S); ok && mv.Sign() > 0 {
+				low := new(big.Int).And(mv, new(big.Int).Neg(mv))
+				st.assume(mkImplies(mkAnd(mkCmp("<=", tZero, pr[0]), mkCmp("<", pr[0], mkBig(low))), mkEq(res, mkArith("+", pr[0], pr[1]))))
+			}
+		}
 		if !signed {
 			st.assume(mkAnd(mkCmp(">=", res, a), mkCmp(">=", res, c), mkCmp("<=", res, mkArith("+", a, c))))
 		}
